@@ -229,7 +229,10 @@ def eval_dec(instr, decs, name, version, data):
             parts.append("[%s,%s,%s,%s,%s]" % (canon(fr.topic), canon(fr.partition), canon(fr.error), canon(fr.highwaterMark), show_set(y, e)))
         out = "[" + ",".join(parts) + "]"
     else:
-        out = canon(v)
+        try:
+            out = canon(v)
+        except TypeError as e:  # a value of a shape no decoder produces: reported as a disagreement
+            out = "?uncanonical(%s)" % e
     return {"out": "value " + out, "outer": outer, "cost": instr.reads + instr.crc_bytes, "gz": instr.gz_bytes, "gzt": instr.gz_tokens(), "sets": sets}
 
 
@@ -541,6 +544,40 @@ def lsb_window_start(e):
     return 0
 
 
+def solve_window(body, k, target):
+    """The 32-bit window pattern at bit k of `body` (CRC bit order) whose XOR changes the CRC-32 of
+    `body` by exactly `target`.  The map window -> CRC difference is linear and bijective (this is
+    the content of C12_burst_bits), so there is exactly one; found by Gaussian elimination on the 32
+    single-bit responses (reference CRC, not zlib)."""
+    base = R.crc32(body)
+    rows = []  # (response, combo)
+    for i in range(32):
+        e = bytearray(len(body))
+        bit = k + i
+        e[bit // 8] |= 1 << (bit % 8)
+        rows.append((R.crc32(bytes(x ^ y for x, y in zip(body, e))) ^ base, 1 << i))
+    pivots = {}
+    for v, c in rows:
+        while v:
+            pb = v.bit_length() - 1
+            if pb in pivots:
+                pv, pc = pivots[pb]
+                v ^= pv
+                c ^= pc
+            else:
+                pivots[pb] = (v, c)
+                break
+    v, c = target, 0
+    while v:
+        pb = v.bit_length() - 1
+        if pb not in pivots:
+            return None
+        pv, pc = pivots[pb]
+        v ^= pv
+        c ^= pc
+    return c
+
+
 def burst_cases(ctx, res, instr, n_msgs, exhaustive_span, per_span, sampled_large):
     """Every bit position x every burst length <= 32 inside the checksummed region of small messages
     (exhaustive over the interior bits up to `exhaustive_span`), sampled on large messages; the
@@ -594,6 +631,44 @@ def burst_cases(ctx, res, instr, n_msgs, exhaustive_span, per_span, sampled_larg
                 b.flush()
         res.nontrivial(["burst", [hx(m) for _, m in entries], j])
         res.count("burst_messages_exhaustive")
+    # targeted: for every bit of the CRC, a burst that changes the CRC in exactly that bit (a decoder
+    # that compares only part of the checksum accepts one of these), plus half-word and random targets
+    for _ in range(max(2, n_msgs)):
+        entries, refs, msgs = gen_flat_set(rng, 3, rng.choice([6, 40, 300]))
+        j = rng.randrange(len(entries))
+        body = entries[j][1][4:]
+        nbits = 8 * len(body)
+        for k in sorted(set([0, nbits - 32, rng.randrange(0, nbits - 31), rng.randrange(0, nbits - 31)])):
+            targets = [1 << i for i in range(32)] + [0xFFFF0000, 0x0000FFFF, 0xFF000000, 0x000000FF, 0x80000001] + [rng.getrandbits(32) | 1 for _ in range(4)]
+            for t in targets:
+                pat = solve_window(body, k, t)
+                if not pat:
+                    res.notes.append("solve_window found no pattern (reference CRC not bijective on a window?)")
+                    continue
+                e_body = apply_bits(len(body), k, pat)
+                one(entries, refs, j, e_body, k + ((pat & -pat).bit_length() - 1), "targeted")
+        res.nontrivial(["burst-targeted", hx(entries[j][1])])
+    b.flush()
+    # compressed wrapper messages: every single-bit flip and sampled bursts of every span
+    for _ in range(max(2, n_msgs // 2)):
+        entries, refs, msgs = gen_flat_set(rng, 2, 10)
+        while True:
+            o, w, _ = gen_wrapper(rng, depth=rng.choice([1, 2]))
+            if len(w) >= 30:
+                break
+        entries.append((o, w))
+        refs.append("<wrapper>")
+        j = len(entries) - 1
+        nbytes = len(w) - 4
+        for k in range(8 * nbytes):
+            one(entries, refs, j, apply_bits(nbytes, k, 1), k, "wrapper")
+        for _ in range(200):
+            sp = rng.randrange(2, 33)
+            k = rng.randrange(0, 8 * nbytes - sp + 1)
+            pat = 1 | (rng.getrandbits(sp - 2) << 1) | (1 << (sp - 1))
+            one(entries, refs, j, apply_bits(nbytes, k, pat), k, "wrapper")
+        res.nontrivial(["burst-wrapper", hx(w)])
+    b.flush()
     # large messages, sampled
     for _ in range(sampled_large):
         entries, refs, msgs = gen_flat_set(rng, 3, rng.choice([200, 2000, 20000]))
@@ -728,6 +803,94 @@ def hostile_cases(ctx, res, instr, per_decoder, random_per_decoder):
     res.extra["worst_seconds_per_byte"] = worst["ratio"]
 
 
+def run_consumer(buf, mx, part, start, highwater):
+    """One real Consumer handed one FetchResponse whose messages are the real iterator over `part`."""
+    from unittest.mock import Mock
+
+    from afkak.common import FetchResponse
+    from afkak.consumer import Consumer
+    from afkak.kafkacodec import KafkaCodec as C
+    from twisted.internet.defer import Deferred
+    from twisted.internet.task import Clock
+
+    clock = Clock()
+    delivered = []
+    cons = Consumer(Mock(reactor=clock), "t", 0, lambda cn, msgs: delivered.extend(m.offset for m in msgs), buffer_size=buf, max_buffer_size=mx)
+    cons._start_d = Deferred()
+    failed = []
+    cons._start_d.addErrback(lambda f: failed.append(f.type.__name__))
+    cons._fetch_offset = start
+    cons._request_d = Deferred()
+    raised = None
+    try:
+        cons._handle_fetch_response([FetchResponse("t", 0, 0, highwater, C._decode_message_set_iter(part))])
+    except Exception as e:  # noqa: BLE001 - an escaping exception is an observation, not a harness crash
+        raised = type(e).__name__
+    return {"raised": raised, "delivered": delivered, "failed": failed, "new_b": "fail" if failed else str(cons.buffer_size), "after": cons._fetch_offset, "scheduled": len(clock.getDelayedCalls())}
+
+
+def grow_cases(ctx, res, n):
+    """The real Consumer's reaction to a message set cut short: `_handle_fetch_response` is handed a
+    FetchResponse whose messages are the real iterator over the first c bytes of a set.  Observed:
+    the next fetch offset, the buffer size (or the failure of the start Deferred), what reached the
+    processor.  Compared with `grow` and judged by the Lean monitor `refetchOk`."""
+    import logging
+
+    rng = ctx.rng
+    b = Batch(ctx)
+    logging.getLogger("afkak.consumer").setLevel(logging.CRITICAL)
+    for i in range(n):
+        mode = rng.randrange(4)
+        if mode == 0:
+            buf, mx = rng.choice([1, 4096, 2 ** 20 - 1, 2 ** 20, 2 ** 20 + 1, 2 ** 24]), None
+        else:
+            buf = rng.choice([1, 2, 1000, 4096, 65536, 2 ** 20, 2 ** 20 + 1, 2 ** 22, rng.randrange(1, 2 ** 25)])
+            mx = rng.choice([buf, buf + 1, buf * 2 - 1 if buf > 1 else 2, buf * 2, buf * 16, buf * 16 + 1, buf * 3, 2 ** 26 if buf <= 2 ** 26 else buf])
+        start = rng.choice([0, 5, 10 ** 6])
+        nmsg = rng.randrange(1, 5)
+        entries, refs, offs = [], [], []
+        off = start
+        for _ in range(nmsg):
+            m = gen_msg(rng, 12)
+            entries.append((off, enc_msg(m)))
+            offs.append(off)
+            off += rng.choice([1, 1, 3])
+        data = R.enc_set(entries)
+        bounds = [sum(12 + len(m) for _, m in entries[:j]) for j in range(nmsg + 1)]
+        c = rng.choice([0, 1, 11, 12, 13, len(data), rng.randrange(len(data) + 1), rng.choice(bounds), max(0, rng.choice(bounds) - 1), min(len(data), rng.choice(bounds) + 1)])
+        k = sum(1 for x in bounds[1:] if x <= c)
+        g_ = run_consumer(buf, mx, data[:c], start, off)
+        delivered, failed, new_b, after, scheduled = g_["delivered"], g_["failed"], g_["new_b"], g_["after"], g_["scheduled"]
+        res.evaluations += 1
+        sc = {"kind": "grow", "buffer": buf, "max": mx, "entries": [[o, hx(m)] for o, m in entries], "c": c, "start": start}
+        if g_["raised"]:
+            res.monitor_failures.append({"what": "handling a fetch response whose message set is cut short raised %s" % g_["raised"], "scenario": sc, "tags": ["truncated-raises"]})
+            continue
+        if delivered != offs[:k]:
+            res.monitor_failures.append({"what": "the consumer's processor did not receive exactly the complete messages of a set cut short", "scenario": dict(sc, delivered=delivered, expected=offs[:k]), "tags": ["truncated-delivery-wrong"]})
+
+        def mon(l, g, sc=sc, new_b=new_b, after=after):
+            if g != ["ok"]:
+                res.monitor_failures.append({"what": "after a message set cut short the consumer skipped data or did not enlarge its buffer as specified", "scenario": dict(sc, new_buffer=new_b, fetch_offset_after=after), "tags": ["skipped-or-not-enlarged"]})
+
+        b.add("mon-refetch %s %d %d %d %d %s %d %s" % (",".join(map(str, offs)), k, start, after, buf, "N" if mx is None else mx, c, new_b), mon)
+
+        def chk(l, g, sc=sc, new_b=new_b, k=k, c=c, buf=buf):
+            want = ["fail"] if new_b == "fail" else ["int " + new_b]
+            if k == 0 and c > 0 and g != want:
+                disagree(res, "buffer growth: model differs from Consumer._handle_fetch_response", sc, want, g)
+
+        b.add("grow %d %s" % (buf, "N" if mx is None else mx), chk)
+        if not failed and scheduled != 1:
+            res.monitor_failures.append({"what": "no refetch was scheduled after handling the fetch response", "scenario": dict(sc, scheduled=scheduled), "tags": ["no-refetch"]})
+        res.count("grow_case=%s" % ("too-small" if (k == 0 and c > 0) else ("empty" if c == 0 else "delivered")))
+        res.count("grow_outcome=%s" % ("fail" if failed else ("grown" if new_b != str(buf) else "same")))
+        if k == 0 and c > 0:
+            res.nontrivial(["grow", buf, mx, c, hx(data)])
+    b.flush()
+    res.traces_validated += n
+
+
 def f15_family(n):
     """The cursor-looping layouts of finding F15 (fixed): every loop of every decoder can be made to
     read the same bytes again by a string length < -1.  Kept as a generator so that they run on
@@ -741,6 +904,11 @@ def f15_family(n):
     out.append(("offset_fetch", 0, struct.pack(">ii", 1, 1) + struct.pack(">h", 0) + struct.pack(">i", n) + struct.pack(">iq", 0, 0) + struct.pack(">h", -16) + struct.pack(">h", 0)))
     # join-group: member loop, member_id strlen=-2 then member_data len -6: net zero
     out.append(("join_group", 0, struct.pack(">ihi", 1, 0, 1) + struct.pack(">hhh", 0, 0, 0) + struct.pack(">i", n) + struct.pack(">h", 0) + struct.pack(">i", -6)))
+    # fetch: partition loop, message-set size -18 walks back over the 14-byte partition header
+    for v, head in ((0, struct.pack(">ii", 1, 1)), (2, struct.pack(">iii", 1, 0, 1))):
+        out.append(("fetch", v, head + struct.pack(">h", 0) + struct.pack(">i", n) + struct.pack(">ihq", 0, 0, 0) + struct.pack(">i", -18)))
+    # sync-group member assignment: second topic has strlen -6: re-reads the first topic's zero partition count
+    out.append(("sync_group_member_assignment", 0, struct.pack(">hi", 0, n) + struct.pack(">h", 0) + struct.pack(">i", 0) + struct.pack(">h", -6)))
     return out
 
 
@@ -824,12 +992,13 @@ def run(ctx, res):
     q = ctx.tier == "quick"
     with Instr() as instr:
         run_corpus(ctx, res, instr)
-        crc_cases(ctx, res, ctx.scale(150, 1500))
-        msgset_cases(ctx, res, instr, ctx.scale(150, 3000))
+        crc_cases(ctx, res, ctx.scale(300, 3000))
+        msgset_cases(ctx, res, instr, ctx.scale(600, 8000))
         cost_evidence(ctx, res, instr)
-        burst_cases(ctx, res, instr, n_msgs=ctx.scale(2, 12), exhaustive_span=ctx.scale(7, 11), per_span=ctx.scale(2, 6), sampled_large=ctx.scale(6, 60))
-        trunc_cases(ctx, res, instr, n_sets=ctx.scale(24, 400), every_cut_below=ctx.scale(400, 1500), sampled_cuts=ctx.scale(20, 100))
-        hostile_cases(ctx, res, instr, per_decoder=ctx.scale(12, 200), random_per_decoder=ctx.scale(60, 1500))
+        burst_cases(ctx, res, instr, n_msgs=ctx.scale(6, 24), exhaustive_span=ctx.scale(8, 11), per_span=ctx.scale(2, 6), sampled_large=ctx.scale(20, 150))
+        trunc_cases(ctx, res, instr, n_sets=ctx.scale(100, 1200), every_cut_below=ctx.scale(400, 1500), sampled_cuts=ctx.scale(20, 100))
+        hostile_cases(ctx, res, instr, per_decoder=ctx.scale(40, 500), random_per_decoder=ctx.scale(300, 4000))
+    grow_cases(ctx, res, ctx.scale(1500, 20000))
     res.notes.append("real time and peak allocation are recorded under cost_evidence / worst_seconds_per_byte as evidence only; they are not compared")
     _ = q
 
@@ -843,12 +1012,14 @@ def search(ctx, res, broken):
         trunc_cases(ctx, r2, instr, n_sets=ctx.scale(40, 300), every_cut_below=600, sampled_cuts=30)
         hostile_cases(ctx, r2, instr, per_decoder=ctx.scale(20, 120), random_per_decoder=ctx.scale(100, 800))
         msgset_cases(ctx, r2, instr, ctx.scale(100, 1000))
+    grow_cases(ctx, r2, ctx.scale(300, 3000))
     return r2.monitor_failures[:3]
 
 
 def replay(ctx, data):
     f = data.get("failure") or {}
-    sc = f.get("scenario") or (data.get("no_longer_checks") or [{}])[0].get("what", {}).get("scenario") or data.get("scenario") or {}
+    nlc = (data.get("no_longer_checks") or [{}])[0].get("what", {})
+    sc = f.get("scenario") or (nlc.get("scenario") if isinstance(nlc, dict) else None) or data.get("scenario") or (data if "kind" in data else {})
     print("replay scenario:", json.dumps(sc)[:2000])
     res = Result()
     with Instr() as instr:
@@ -892,6 +1063,22 @@ def replay(ctx, data):
             print("impl :", show_set(r["yielded"], r["end"])[:1500], "cost", r["cost"])
             print("disagreements:", res.disagreements[:1], "monitor failures:", res.monitor_failures[:1])
             bad = bool(res.monitor_failures)
+        elif kind == "grow":
+            import logging
+
+            logging.getLogger("afkak.consumer").setLevel(logging.CRITICAL)
+            entries = [(o, bytes.fromhex(m)) for o, m in sc["entries"]]
+            dat = R.enc_set(entries)
+            bounds = [sum(12 + len(m) for _, m in entries[:j]) for j in range(len(entries) + 1)]
+            k = sum(1 for x in bounds[1:] if x <= sc["c"])
+            offs = [o for o, _ in entries]
+            g_ = run_consumer(sc["buffer"], sc["max"], dat[: sc["c"]], sc["start"], offs[-1] + 1)
+            line = "mon-refetch %s %d %d %d %d %s %d %s" % (",".join(map(str, offs)), k, sc["start"], g_["after"], sc["buffer"], "N" if sc["max"] is None else sc["max"], sc["c"], g_["new_b"])
+            g = ctx.model("crc", [line, "grow %d %s" % (sc["buffer"], "N" if sc["max"] is None else sc["max"])])
+            print("impl : raised", g_["raised"], "delivered", g_["delivered"], "fetch offset", sc["start"], "->", g_["after"], "buffer", sc["buffer"], "->", g_["new_b"])
+            print("model: grow", g[1], "complete messages", k)
+            print("monitor:", g[0])
+            bad = g[0] != ["ok"] or g_["delivered"] != offs[:k] or bool(g_["raised"])
         else:
             print("nothing to replay for kind", kind)
             return 0
